@@ -330,6 +330,9 @@ func init() {
 				if p.Init >= 1000 {
 					bound = 1 // ~1040 scheduling points per execution
 				}
+				if p.Init >= 4000 {
+					bound = 0 // thousands of points per execution: every choice at a blocking or yielding point, no preemption
+				}
 				st := explore.Explore(c14Run(p), explore.Options{Preemptions: bound, EnvDevs: -1, Deadline: c.Deadline})
 				if st.HarnessError != "" {
 					c.Fail("%s on %v", st.HarnessError, p)
@@ -428,6 +431,17 @@ func init() {
 				{{Kind: "start", ID: 4 + 50, T: 1}, {Kind: "stop", ID: 4 + 102}},
 			} {
 				explored(c14Program{Init: 104, Mode: 0, Threads: [][]agentOp{{{Kind: "collect", T: 5}}, other}})
+			}
+			// tables of several thousand transactions (where an implementation would be tempted to give the lock away in
+			// the middle of a pass): Collect is still one atomic step against Stop / Process / Start of ids it has seen
+			for _, n := range []int{4100, 8200} {
+				for _, other := range [][]agentOp{
+					{{Kind: "stop", ID: 4}, {Kind: "stop", ID: 4 + n - 1}},
+					{{Kind: "stop", ID: 4 + n/2}, {Kind: "start", ID: 4 + n/2, T: 6}},
+					{{Kind: "process", ID: 4 + 1}, {Kind: "stop", ID: 4 + n - 2}},
+				} {
+					explored(c14Program{Init: n, Mode: 0, Threads: [][]agentOp{{{Kind: "collect", T: 5}}, other}})
+				}
 			}
 			// a table that once held more than 1024 transactions and is drained to empty by one call whose first
 			// handler registers a new transaction (anything the agent does to its table "when it is empty" must look again)
